@@ -139,6 +139,12 @@ def run_case(spec, j):
     a, b, c, dd = Constraints(ds['y']).positive_negative_pairs(
         p['n_constraints'], same_length=True, random_state=seed)
     idx = np.column_stack([a, b, c, dd])
+  if name == 'LSML' and len(idx) >= 3 and spec['ds']['seed'] % 3 == 0:
+    # quadruplets (a, a, c, d): "d(a, a) <= d(c, d)" always holds, the
+    # constraint is legal and carries its weight like any other
+    idx = np.array(idx, copy=True)
+    for k_ in range(1 + (len(idx) > 6)):
+      idx[k_, 1] = idx[k_, 0]
   Q = X[idx]
   vab = Q[:, 0] - Q[:, 1]
   vcd = Q[:, 2] - Q[:, 3]
